@@ -74,6 +74,7 @@ func genExecConfig(r *RNG, v2 bool, o execGenOpts) *ExecConfig {
 			for k := r.Intn(3); k > 0; k-- {
 				g.Imports = append(g.Imports, []string{"fmt", "os", "alias \"a/b\"", "k8s.io/x", "\"strings\""}[r.Intn(5)])
 			}
+			g.Silent = r.Chance(1, 4)
 			if o.fileTypeTrouble && r.Chance(1, 6) {
 				g.FileType = []string{"", "other", "nope"}[r.Intn(3)]
 			}
